@@ -63,6 +63,9 @@ structure Node where
   tabs : List String
   fields : List FieldMeta
   refs : List Ref
+  /-- rows this object contributes beyond its own chain: mapped sub-objects that its `create_instance` builds on the
+  fly (they live only inside the mapping's view, opaque to the model) and their association rows -/
+  extra : List (String × Nat) := []
   deriving Repr, DecidableEq, Inhabited
 
 abbrev Heap := List Node
@@ -422,10 +425,14 @@ def dedupStr (xs : List String) : List String :=
   xs.foldl (fun acc x => if acc.contains x then acc else acc ++ [x]) []
 
 /-- number of rows per table (every table of a row's chain holds one part of it) -/
+def extraCount (ns : List Node) (t : String) : Nat :=
+  ((ns.flatMap (·.extra)).filter (·.1 == t)).map (·.2) |>.sum
+
 def tableCounts (db : DB) : List (String × Nat) :=
-  let tabs := dedupStr (db.rows.flatMap (·.node.tabs) ++ db.assoc.map (·.table))
-  tabs.map fun t => (t, (db.rows.filter fun r => r.node.tabs.contains t).length
-                        + (db.assoc.filter fun a => a.table == t).length)
+  let ns := db.rows.map (·.node)
+  let tabs := dedupStr (db.rows.flatMap (·.node.tabs) ++ db.assoc.map (·.table) ++ (ns.flatMap (·.extra)).map (·.1))
+  (tabs.map fun t => (t, (db.rows.filter fun r => r.node.tabs.contains t).length
+                        + (db.assoc.filter fun a => a.table == t).length + extraCount ns t)).filter (·.2 != 0)
 
 structure StoreQuirks where
   /-- F-C05-1: direction inferred ONETOMANY for a reference into the own table hierarchy -/
@@ -477,7 +484,8 @@ def specCounts (h : Heap) (roots : List Nat) : List (String × Nat) :=
     match r with
     | .many ts => ts.map fun _ => (fieldOf n k).name
     | _ => []).flatten
-  let tabs := dedupStr (ns.flatMap (·.tabs) ++ assocs)
-  tabs.map fun t => (t, (ns.filter fun n => n.tabs.contains t).length + (assocs.filter (· == t)).length)
+  let tabs := dedupStr (ns.flatMap (·.tabs) ++ assocs ++ (ns.flatMap (·.extra)).map (·.1))
+  (tabs.map fun t => (t, (ns.filter fun n => n.tabs.contains t).length + (assocs.filter (· == t)).length
+                        + extraCount ns t)).filter (·.2 != 0)
 
 end KrroodVerif.Dao
